@@ -227,6 +227,28 @@ example :
     chk { total := some 7500 } [(3, [.startR]), (10, [.connDone 0]), (20, [.bytes ⟨40, true, 3, false⟩])] = true := by
   decide +kernel
 
+/-- kernel-checked runs for the three seeded defects' scenarios (the universally quantified
+statements are `no_orphan_task`, `slot_freed`, `connection_closed_not_pooled` above — `Ev.cancel`
+and `Ev.peerEof` are ordinary timeline events, `closeDelim` an ordinary configuration):
+(1) upload stalled in `drain()` (writer parked), caller cancelled while awaiting headers: the
+    writer is cancelled, nothing is left;
+(2) close-delimited body, only `total` configured, peer stalls mid-body with the socket open:
+    `TimeoutError` at the deadline, connection closed, slot freed;
+(3) close-delimited body completed by the peer's close: ok, connection closed (never pooled). -/
+example :
+    let s1 := observe { wstall := true } (run { wstall := true } (init false)
+      [(3, [.startR]), (13, [.connDone 0]), (777, [.cancel])])
+    let c2 : Cfg := { total := some 1500, closeDelim := true }
+    let s2 := observe c2 (run c2 (init false)
+      [(1003, [.startR]), (1093, [.connDone 0]), (1183, [.bytes ⟨40, true, 10, false⟩])])
+    let c3 : Cfg := { closeDelim := true }
+    let s3 := observe c3 (run c3 (init false)
+      [(3, [.startR]), (13, [.connDone 0]), (20, [.bytes ⟨40, true, 10, false⟩]), (30, [.peerEof])])
+    (s1.pc = .done .cancelled 777 ∧ s1.wr = .cancelled ∧ s1.slot = .none ∧ s1.tr = .closed) ∧
+    (s2.pc = .done .timeout 2503 ∧ s2.slot = .none ∧ s2.tr = .closed ∧ s2.pooled = false) ∧
+    (s3.pc = .done .ok 30 ∧ s3.slot = .none ∧ s3.tr = .closed ∧ s3.pooled = false) := by
+  decide +kernel
+
 /-! ## others are unaffected -//-! ## others are unaffected -/
 
 /-- what R's own transitions may do to the co-request and the shared lookup: nothing, or
